@@ -223,6 +223,20 @@ class Run:
         signac = self.signac
         cfg = self.cfg
         pp = self.world.p("proj")
+        if self.sc.get("seed", 0) % 3 == 0:
+            # the same process has looked at this path before, when nothing was there (a verdict
+            # remembered from then must not outlive the directory's content)
+            with self.world.observing():
+                os.makedirs(pp)
+            for probe in (lambda: signac.get_project(pp), lambda: signac.Project(pp)):
+                try:
+                    probe()
+                    self.v("C20:probe:empty-directory-opened", "an empty directory was opened as a project")
+                except LookupError:
+                    pass
+            with self.world.observing():
+                os.rmdir(pp)
+            self.probe("path_probed_while_empty")
         wsname, jobs = self.build(pp)
         ver = cfg["version"]
         vnum = 0 if ver == "absent" else 1 if ver == "absent-new" else int(str(ver).split("-")[0])
